@@ -205,6 +205,7 @@ const (
 	fltWriteFail
 	fltAcceptTemp
 	fltNotReading
+	fltResetInFlight
 	fltKinds
 )
 
@@ -215,7 +216,11 @@ func H_C07_faults() {
 	v := vNewSrv()
 	served := map[string]int{}
 	var mu sync.Mutex
+	slow := vGate("victim's slow handler")
 	ok := func(w *ResponseWriter, r *Request) {
+		if fault == fltResetInFlight && r.ConnectionID() == 1 {
+			vGateWait(slow)
+		}
 		err := w.Write(r.NewResponse(WithResponseCode(ResultSuccess), WithApplicationCode(ApplicationDelResponse)))
 		mu.Lock()
 		if err == nil {
@@ -247,6 +252,11 @@ func H_C07_faults() {
 	case fltWriteFail:
 		vConnSet(c1, "writeFail", true)
 		vConnFeed(c1, vWire(refEnvelope(1, refDeleteOp(), nil)))
+	case fltResetInFlight:
+		// the connection is reset while one of its handlers is still running; the handler
+		// answers only after the bystander has come and been served
+		vConnFeed(c1, vWire(refEnvelope(77, refDeleteOp(), nil)))
+		vConnFeedErr(c1, "read: connection reset by peer")
 	case fltNotReading:
 		// the client stops reading: its handler stays blocked inside Write
 		vConnSet(c1, "writeBlock", true)
@@ -277,7 +287,15 @@ func H_C07_faults() {
 	}
 	vAssertE(byst == 1, "the bystander connection is accepted and receives its response")
 	mu.Unlock()
+	vGateOpen(slow)
+	vQuiesce()
 	vAssertE(vConnWrites(c2) == 1, "exactly one response frame reaches the bystander")
+	if vConnWrites(c2) >= 1 {
+		if p := ber.DecodePacket(vConnWriteN(c2, 0)); p != nil && len(p.Children) >= 1 {
+			gotID, _ := p.Children[0].Value.(int64)
+			vAssertE(gotID == 1, "the bystander receives the answer to its own request")
+		}
+	}
 	vAssertE(vConnClosed(c2) == 0, "the bystander connection stays open")
 	if fault != fltAcceptTemp && fault != fltHandlerPanic && fault != fltNotReading {
 		vAssertE(vConnClosed(c1) == 1, "the faulty connection is closed")
